@@ -76,7 +76,7 @@ def proj_session(which):
 def with_session(proj, which):
     return lambda c: proj_session(which)(c) if kind(c) == 'session' else proj(c)
 
-SESSION_RULE = " || `session` lines: one real segment (fresh file, real ShmWriter), one long-lived ClockBoundClient and one long-lived C context (clockbound_open in the C client process) driven through 3-20 operations: publications, the generation/version word overwritten (writer dead mid-update, segment being re-initialised), re-opens, and paired now()/clockbound_now() calls at instants aimed at the cached record's thresholds (blur, 5 s, void-after, far beyond, 2^32-ns aliases); ten scripted sessions (one record ageing through every threshold on one client, grace-then-void with nothing in between, a record that becomes malformed asked repeatedly, repeated causality breach, odd/zero generation before the first call, frozen odd generation while the cached record ages, publications between calls, open before the first publication, the path given a new inode under attached clients that are then asked 2100 times in a row) always run; op `x` = the path is unlinked and a new file put there, `qn`/`cqn` = the same call N times (N in {2, 17, 1023, 1024, 1025, 2100}): all answers identical; every answer must be what a fresh evaluation of the cached-record semantics gives, with the clock reads in the order REALTIME, MONOTONIC_COARSE on every call"
+SESSION_RULE = " || `session` lines: one real segment (fresh file, real ShmWriter), one long-lived ClockBoundClient and one long-lived C context (clockbound_open in the C client process) driven through 3-20 operations: publications, the generation/version word overwritten (writer dead mid-update, segment being re-initialised), re-opens, and paired now()/clockbound_now() calls at instants aimed at the cached record's thresholds (blur, 5 s, void-after, far beyond, 2^32-ns aliases); ten scripted sessions (one record ageing through every threshold on one client, grace-then-void with nothing in between, a record that becomes malformed asked repeatedly, repeated causality breach, odd/zero generation before the first call, frozen odd generation while the cached record ages, publications between calls, open before the first publication, the path given a new inode under attached clients that are then asked 2100 times in a row) always run; op `x` = the path is unlinked and a new file put there, `qn`/`cqn` = the same call N times (N in {2, 17, 1023, 1024, 1025, 2100}): all answers identical; every answer must be what a fresh evaluation of the cached-record semantics gives, with the clock reads in the order REALTIME, MONOTONIC_COARSE on every call; ops `qw` / `cqw`: the daemon publishes (generation word and record replaced) at the call's FIRST clock read, i.e. after the client took its snapshot: a record published after the clock was read must not be applied to that reading, so the answer is the one computed from the record cached before (verdict C01), and the next call sees the new record"
 
 def world_pubs(ans):
     """the publications of a world line: list of token lists starting with 'rec'"""
@@ -393,9 +393,9 @@ PROPS.update({
 PROPS['C01'] = dict(
     oracle='C01', also=['C02', 'C13', 'C07'],
     lean_modules=['ClockBound.Properties.C01', 'ClockBound.Properties.C01Pipeline'],
-    gens=lambda seed, th: [['worldgen', seed, 30000 if th else 1200], ['slgen', seed, 5000 if th else 300], ['slxgen'], ['poll', seed, 10000 if th else 1500]],
-    relevant=lambda c: kind(c) in ('world', 'sl', 'slx', 'poll'),
-    project=lambda c: proj_poll_c13(c) if kind(c) == 'poll' else (c.impl, c.model),
+    gens=lambda seed, th: [['worldgen', seed, 30000 if th else 1200], ['slgen', seed, 5000 if th else 300], ['slxgen'], ['poll', seed, 10000 if th else 1500], ['session', seed, 20000 if th else 800]],
+    relevant=lambda c: kind(c) in ('world', 'sl', 'slx', 'poll') or (kind(c) == 'session' and 'pubDuringCall' in c.tags),
+    project=lambda c: proj_poll_c13(c) if kind(c) == 'poll' else (proj_session('all')(c) if kind(c) == 'session' else (c.impl, c.model)),
     require={'ann': 'adequate'},
     nontrivial=lambda c: 'trusted' in c.tags and 'tight' in c.tags,
     shrink=True,
@@ -498,10 +498,10 @@ for _p in ():
 
 # ------------------------------------------------------------------ translation tie (Rust AST regenerated by /verif/translator)
 CODE_TIE = {'C05': ['Client', 'Now'], 'C06': ['Client', 'Now'], 'C14': ['Client', 'Now', 'Errors'],
-            'C01': ['Client', 'Updater', 'Extract', 'Drift', 'Poller', 'Dispatch'],
+            'C01': ['Client', 'Updater', 'Extract', 'Drift', 'Poller', 'Dispatch', 'Now', 'Errors'],
             'C07': ['Extract'], 'C10': ['Extract', 'Leap'], 'C08': ['Updater', 'Dispatch'], 'C09': ['Updater', 'Dispatch'], 'C19': ['Drift'],
             'C02': ['Seqlock'], 'C03': ['Seqlock'], 'C04': ['Seqlock', 'Header', 'WriterNew'], 'C11': ['Seqlock'], 'C18': ['Seqlock'],
-            'C16': ['Header', 'WriterNew', 'Errors'], 'C17': ['Header', 'Errors'], 'C12': ['Poller', 'Now'], 'C13': ['Poller', 'Dispatch'],
+            'C16': ['Header', 'WriterNew', 'Errors'], 'C17': ['Header', 'Errors'], 'C12': ['Poller', 'Now', 'Errors'], 'C13': ['Poller', 'Dispatch'],
             'C15': ['Threads', 'Workers']}
 _TIE_WHAT = {'Client': 'ClockErrorBound::compute_bound_at = computeBoundAt', 'Leap': 'ChronyClockStatus::from(u16) = leapClass',
              'Extract': 'extract_bound_from_tracking = (boundF, classify)', 'Updater': 'ShmUpdater::{new, process_clock_update, process_missing_clock_update, write_clock_error_bound} = Updater.{new, step, record}',
@@ -544,7 +544,7 @@ for _p, _g in CONSTS.items():
     if _p in PROPS:
         PROPS[_p]['consts_module'] = f'ClockBound.Properties.Consts{_g}'
 
-for _p in ('C05', 'C06', 'C14', 'C12', 'C17', 'C03', 'C18'):
+for _p in ('C05', 'C06', 'C14', 'C12', 'C17', 'C03', 'C18', 'C01'):
     PROPS[_p]['rule'] += SESSION_RULE
 
 # hostile-environment pass (tools/check.py): request kinds re-executed with the environment variables the binary mentions set
